@@ -16,11 +16,12 @@ import re
 from sexp import Sym
 
 from props import _hlg_util as U
+from props import _c35x_gufunc as GX
 
 PROP = "C35"
 READY = True
 DRIVER = "dm_hlg"
-LEAN_MODULES = ["DaskModel.Props.C35"]
+LEAN_MODULES = ["DaskModel.Props.C35", "DaskModel.Props.C35xGufunc"]
 CASE_TIMEOUT_S = 60   # the first case of a run also pays the import of dask.array (slow on a loaded machine)
 LEVEL_TEXT = ("Lean 4 theorems over a transliteration of map_blocks' index bookkeeping and block_info computation: "
               "`block_info_true` (the reported array-location of block b along an axis is [sum of the chunks before b, "
@@ -31,12 +32,30 @@ LEVEL_TEXT = ("Lean 4 theorems over a transliteration of map_blocks' index bookk
               "the whole axis), `calls_once_per_block` (the emitted block set is duplicate-free and is exactly the output "
               "grid), `block_id_is_out_coord`, `loopDims_right_aligned` (apply_gufunc right-aligns loop dimensions). "
               "Validated: the index plan for drop_axis/new_axis/chunks= and all block_info dictionaries (function level, "
-              "read from the graph), the blocks user functions actually receive, apply_gufunc vs numpy.vectorize.")
+              "read from the graph), the blocks user functions actually receive, apply_gufunc vs numpy.vectorize. "
+              "Extension (Props/C35xGufunc over Model/Gufunc, dask/array/gufunc.py end to end for the index bookkeeping): "
+              "`gufunc_index_strings_spec` (for the index strings apply_gufunc hands to blockwise — loop dimensions shared and "
+              "right-aligned, core dimensions per argument, output = loop dimensions, concatenate=True — every call gets the "
+              "loop block of its output block, block 0 where an argument has one block, and ALL blocks of every core "
+              "dimension), `gufunc_eq_vectorize` (for every chunking of the loop dimensions the value assembled at loop index l "
+              "is f applied to the core slices NumPy's broadcasting selects; f abstract; `_multi` for several outputs), the "
+              "guards as theorems (`guards_nargs`, `guards_ndim`, `plan_raises_core_multichunk`, `plan_ok_checks`, "
+              "`chunks_aligned`, `outCore_missing`), `leaf_keys_grid` (the hand-built output layers have exactly the keys of "
+              "the chunk grid), and for `_parse_gufunc_signature` (a deterministic automaton) `parse_render` (the canonical "
+              "text of any signature parses back to it). Tied at function level: the parser incl. malformed signatures "
+              "(exhaustive short strings + random edits, against the function and its own regular expression), the arguments of "
+              "the wrapped `blockwise` call, the error raised and its dimension, leaf layers, output chunks, task "
+              "dependencies; at API level position-encoding arrays decode which core slice each result element was computed "
+              "from (vs `gufuncAt`, `vectorizeAt`, numpy.vectorize).")
 LEVEL_NOTE = ("Trusted: Lean kernel + standard axioms; model tied by function-level diffs of the Blockwise layer and the "
               "block_info dictionaries that map_blocks builds, plus the K13 tie of C10; NumPy/np.vectorize as oracles; "
               "user functions are assumed pure.")
 TECHNIQUE = "Lean 4 proof (induction over chunk lists / index strings) + differential correspondence + recording user functions"
-ASSUMPTIONS = ["user functions are pure", "chunk sizes known (no NaN)"]
+ASSUMPTIONS = ["user functions are pure", "chunk sizes known (no NaN)",
+               "gufunc signatures are ASCII and no core dimension is named __loopdim<d>__ (the model keeps loop and core "
+               "dimensions apart by construction)",
+               "concatenating all blocks of the core dimensions of one loop block yields that loop block's core slices "
+               "(dask.array.core.concatenate_axes)"]
 TRUSTED = ["numpy.vectorize as the reference for gufunc semantics"]
 
 
@@ -616,6 +635,7 @@ def case_prog(ctx, inp):
 
 CASES = {"blockinfo": case_blockinfo, "mapblocks": case_mapblocks, "newaxis": case_newaxis, "adjust": case_adjust,
          "gufunc": case_gufunc, "gufunc_axes": case_gufunc_axes, "prog": case_prog}
+CASES.update(GX.CASES)
 
 
 def gen_mapblocks(rng):
@@ -674,3 +694,5 @@ def generate(ctx):
     for _ in range(ctx.n(60, 600)):
         p, _x = G.gen(rng.randint(1, 3))
         yield "prog", {"prog": p}
+    # extension round: dask/array/gufunc.py end to end (appended last so that the streams above are unchanged)
+    yield from GX.generate(ctx)
